@@ -157,11 +157,25 @@ def run(ctx):
         for x in walk_body_shallow(sendm.body):
             if isinstance(x, ast.Assign) and isinstance(x.value, ast.Name) and any(isinstance(t, ast.Name) and t.id in accs for t in x.targets):
                 accs.add(x.value.id)
+    def _nonnull_len_sum(e):
+        """`sum(len(v) for v in X if v is not None)` -> X, else None"""
+        if isinstance(e, ast.Call) and call_name(e) == "sum" and len(e.args) == 1 and isinstance(e.args[0], (ast.GeneratorExp, ast.ListComp)) and len(e.args[0].generators) == 1:
+            g_ = e.args[0].generators[0]
+            if isinstance(g_.target, ast.Name) and norm(e.args[0].elt) == "len(%s)" % g_.target.id and len(g_.ifs) == 1 and norm(g_.ifs[0]) in (
+                    "%s is not None" % g_.target.id, "isinstance(%s, bytes)" % g_.target.id):
+                return g_.iter
+        return None
     bc = [n for n in cf.nodes if n.kind == "stmt" and isinstance(n.stmt, ast.AugAssign) and unparse(n.stmt.target) in accs]
     okb = len(bc) == 1 and isinstance(bc[0].stmt.value, ast.Call) and call_name(bc[0].stmt.value) == "len"
     if okb:
         ev = norm(bc[0].stmt.value.args[0])
-        okb = ("%s is None" % ev, False) in cfs[bc[0].id]
+        okb = ("%s is None" % ev, False) in cfs[bc[0].id] or ("isinstance(%s, bytes)" % ev, True) in cfs[bc[0].id]
+    if not okb and not bc:
+        # the sum written as one expression over the caller's messages
+        sums_ = [x.value for x in walk_body_shallow(sendm.body) if isinstance(x, ast.Assign) and any(isinstance(t, ast.Name) and t.id in accs for t in x.targets)]
+        if bv is not None and not isinstance(bv, ast.Name):
+            sums_ = [bv]
+        okb = bool(sums_) and all(_nonnull_len_sum(v_) is not None and norm(_nonnull_len_sum(v_)) == msgs_p for v_ in sums_ if not isinstance(v_, ast.Name))
     r.check(okb, "%s#byte-count-quantity" % sendm.qname, "queued byte count is not the sum of len(m) over non-null messages",
             where(sendm, bc[0].stmt if bc else sendm.node))
     # dequeue side: the message count is reduced by len(<request>.messages), unconditionally with the removal
@@ -182,6 +196,21 @@ def run(ctx):
                 where(f, n.stmt), "a cancelled send with null messages leaves them counted: a later batch is dispatched below the threshold")
         bdec = [m for m in cff.nodes if m.kind == "stmt" and isinstance(m.stmt, ast.AugAssign) and self_attr(m.stmt.target) == "_waitingByteCount"]
         okq = len(bdec) == 1 and isinstance(bdec[0].stmt.value, ast.Call) and call_name(bdec[0].stmt.value) == "len"
+        if not okq and len(bdec) == 1 and isinstance(bdec[0].stmt.op, ast.Sub):
+            v_ = bdec[0].stmt.value
+            # a one-expression helper taking the message list (`_payload_size(req.messages)`)
+            g_ = prog.resolve_call(f, v_) if isinstance(v_, ast.Call) else None
+            if g_ is not None and len(v_.args) == 1 and not v_.keywords:
+                ps_ = [p_ for p_ in g_.params if p_ not in ("self", "cls")]
+                body_ = [x for x in g_.node.body if not (isinstance(x, ast.Expr) and isinstance(x.value, ast.Constant))]
+                if len(ps_) == 1 and len(body_) == 1 and isinstance(body_[0], ast.Return) and body_[0].value is not None:
+                    inner_ = _nonnull_len_sum(body_[0].value)
+                    if inner_ is not None and norm(inner_) == ps_[0]:
+                        v_ = ast.parse("sum(len(m_) for m_ in %s if m_ is not None)" % norm(v_.args[0]), mode="eval").body
+            it_ = _nonnull_len_sum(v_)
+            if it_ is not None:
+                src_ = [norm(it_)] if not isinstance(it_, ast.Name) else [norm(x.value) for x in local_defs(f, it_.id)]
+                okq = bool(src_) and all(s_.endswith(".messages") for s_ in src_)
         r.check(okq, "%s#dequeue-byte-count-quantity" % f.qname, "on dequeue the byte count is not reduced by len(m) per message", where(f, n.stmt))
 
     # ---- R3 cancel before dispatch
@@ -212,6 +241,14 @@ def run(ctx):
         def _def_matches(dn, v):
             if isinstance(v, ast.Name):
                 return _is_match(fcc[dn], v.id)
+            if isinstance(v, ast.Call) and call_name(v) == "next" and isinstance(v.func, ast.Name) and len(v.args) == 2 and isinstance(v.args[0], ast.GeneratorExp) \
+                    and len(v.args[0].generators) == 1 and isinstance(v.args[1], ast.Constant) and v.args[1].value is None:
+                # first match of a search written as next(generator, None); None is excluded by the guard at the removal
+                g0 = v.args[0].generators[0]
+                if isinstance(g0.target, ast.Name) and norm(v.args[0].elt) == g0.target.id and norm(g0.iter) == "self._batch_reqs" and len(g0.ifs) == 1:
+                    from ..cfg import cond_atoms as _ca19
+                    return _is_match(_ca19(g0.ifs[0], True), g0.target.id) and ("%s is None" % rarg.id, False) in fcc[rm[0].id]
+                return False
             g = prog.resolve_call(canc, v) if isinstance(v, ast.Call) else None
             if g is not None and g.cls is canc.cls:
                 # a finder method: whatever it returns other than None (excluded by the guard at the removal) was
@@ -418,8 +455,9 @@ MUTANTS = [
      "expect": "C19.R5"},
     {"id": "outstanding-no-copy", "file": "producer.py", "old": "for d in list(self._outstanding):", "new": "for d in self._outstanding:",
      "expect": "C19.R5"},
-    {"id": "bytes-count-none", "file": "producer.py", "old": "                if m is None:\n                    continue\n\n", "new": "",
-     "expect": "C19.R2"},
+    {"id": "bytes-count-per-message", "file": "producer.py", "old": "                byte_cnt += len(m)\n", "new": "                byte_cnt += 1\n",
+     "expect": "C19.R2", "note": "replaces `bytes-count-none` (the null test dropped): with the type test accepted as the non-null guard that edit no longer "
+     "miscounts - it rejects null messages, which is not this property's business"},
 ]
 TWINS = [
     {"id": "stop-guard-merged", "file": "producer.py",
